@@ -188,7 +188,7 @@ func runRT(c rtCase, o *lib.Obs) error {
 		s.Key = keys[op.Key]
 		switch op.Op {
 		case "store":
-			if err := s.WriteOuts(c.Versions[op.Version]); err != nil {
+			if err := cx.WriteOuts(s, c.Versions[op.Version]); err != nil {
 				return &lib.Inconclusive{Msg: err.Error()}
 			}
 			if err := s.Store(); err != nil {
@@ -202,7 +202,7 @@ func runRT(c rtCase, o *lib.Obs) error {
 			want, stored := model[op.Key]
 			if op.Dirty && len(c.Versions) > 1 {
 				other := (want + 1) % len(c.Versions)
-				if err := s.WriteOuts(c.Versions[other]); err != nil {
+				if err := cx.WriteOuts(s, c.Versions[other]); err != nil {
 					return &lib.Inconclusive{Msg: err.Error()}
 				}
 			} else if err := s.WipeOuts(); err != nil {
@@ -222,7 +222,7 @@ func runRT(c rtCase, o *lib.Obs) error {
 			if !hit {
 				return lib.Failf("miss-after-store", "op %d: Retrieve of key %d missed although version %d was stored", i, op.Key, want)
 			}
-			got, err := s.SnapshotOuts()
+			got, err := cx.SnapshotOuts(s)
 			if err != nil {
 				return lib.Failf("unreadable-restore", "op %d: %v", i, err)
 			}
@@ -318,14 +318,14 @@ func runCrash(c crashCase, o *lib.Obs) error {
 			return err
 		}
 		if c.Prev != nil {
-			if err := s.WriteOuts(c.Prev); err != nil {
+			if err := cx.WriteOuts(s, c.Prev); err != nil {
 				return err
 			}
 			if err := s.Store(); err != nil {
 				return err
 			}
 		}
-		return s.WriteOuts(c.New)
+		return cx.WriteOuts(s, c.New)
 	}
 	// retrieveFresh retrieves into an empty out dir with a fresh cache object; "" = miss.
 	retrieveFresh := func() (hit bool, got []lib.Entry, err error) {
@@ -336,11 +336,11 @@ func runCrash(c crashCase, o *lib.Obs) error {
 		if err != nil || !hit {
 			return false, nil, err
 		}
-		got, err = s.SnapshotOuts()
+		got, err = cx.SnapshotOuts(s)
 		return true, got, err
 	}
 	run := func(inj *lib.Inject) (*lib.StraceResult, error) {
-		return lib.Strace(lib.StraceOpts{Inject: inj, Dir: dir, Env: cx.HelperEnv()}, helper, specFile)
+		return lib.Strace(lib.StraceOpts{Inject: inj, NoFollow: true, Dir: dir, Env: cx.HelperEnv()}, helper, specFile)
 	}
 
 	if err := prepare(); err != nil {
@@ -418,7 +418,7 @@ func runCrash(c crashCase, o *lib.Obs) error {
 			return lib.Failf(class, "%s", msg)
 		}
 		// a later complete store must repair whatever the crash left behind
-		if err := s.WriteOuts(c.New); err != nil {
+		if err := cx.WriteOuts(s, c.New); err != nil {
 			return &lib.Inconclusive{Msg: err.Error()}
 		}
 		if err := s.Store(); err != nil {
@@ -431,6 +431,9 @@ func runCrash(c crashCase, o *lib.Obs) error {
 		if d := lib.DiffEntries(wantNew, got, lib.DiffOpts{}); d != "" {
 			return lib.Failf("store-after-crash-differs", "%s; then a complete Store of the same key; restored tree differs (first = expected):\n%s", where, d)
 		}
+	}
+	if os.Getenv("VERIF_DEBUG") != "" {
+		fmt.Fprintf(os.Stderr, "crash case compress=%v prev=%v outs=%v: %d points, %d not fired, outcomes %v\n", c.Compress, c.Prev != nil, s.Outs, len(pts), notFired, outcomes)
 	}
 	rec.AddExtra("crash_points_evaluated", int64(len(pts)-notFired))
 	rec.AddExtra("crash_points_not_fired", int64(notFired))
